@@ -104,7 +104,12 @@ def gen_case(r):
     r.shuffle(dblocks)
     # some definitions before the body, some after
     cut = r.randint(0, len(dblocks))
-    doc = "\n".join(dblocks[:cut] + blocks + dblocks[cut:])
+    parts = dblocks[:cut] + blocks + dblocks[cut:]
+    doc = ""
+    for i, part in enumerate(parts):
+        # a definition may follow a paragraph line directly, without a blank line (it interrupts the paragraph)
+        glued = i > 0 and part.startswith("[^") and parts[i - 1].startswith("para ") and r.random() < 0.5
+        doc += ("" if (i == 0 or glued) else "\n") + part
     return {"defs": defs, "hist": hist, "doc": doc, "placements": placements}
 
 
@@ -112,8 +117,19 @@ REF_RE = re.compile(r'<sup class="footnote-ref" id="fnref-(\d+)"><a href="#fn-(\
 ITEM_RE = re.compile(r'<li id="fn-(\d+)">(.*?)<a href="#fnref-(\d+)" class="footnote">&#8617;</a></p></li>\n', re.S)
 
 
+# the plugin lists the documents are converted with: numbering must not depend on which other plugins are loaded, nor on the
+# position of footnotes among them
+PLUGIN_LISTS = [["footnotes", "table"], ["speedup", "footnotes", "table"], ["footnotes", "table", "speedup"],
+                ["table", "strikethrough", "speedup", "footnotes", "url"], ["footnotes", "table", "url", "task_lists", "def_list", "abbr"],
+                ["table", "footnotes"]]
+
+
+def plugins_of(doc):
+    return PLUGIN_LISTS[(sum(map(ord, doc)) // 3) % len(PLUGIN_LISTS)]
+
+
 def observe_html(m, doc):
-    md = m.create_markdown(plugins=["footnotes", "table"])
+    md = m.create_markdown(plugins=plugins_of(doc))
     if sum(map(ord, doc)) % 3 == 0:
         # a TOC hook parses heading texts once more, before the inline pass of the document: numbering must not notice
         from mistune.toc import add_toc_hook
@@ -133,7 +149,7 @@ def observe_html(m, doc):
 
 
 def observe_ast(m, doc):
-    md = m.create_markdown(renderer=None, plugins=["footnotes", "table"])
+    md = m.create_markdown(renderer=None, plugins=plugins_of(doc))
     toks = md(doc)
     refs = []
 
@@ -256,7 +272,7 @@ def oracle(ctx, extra):
             "rule": "abstract history (0-9 references to defined/undefined keys, case/space variants of labels) + definition "
                     "set (single/multi-paragraph, continuation lines, duplicates, unreferenced, before/after the body) "
                     "printed as a document with references in paragraphs, quotes, lists, tables, emphasis, strong, link "
-                    "text, headings, nested containers; every clause of C14 checked on the HTML and on the token list; "
+                    "text, headings, nested containers; half of the definitions that follow a paragraph follow it without a blank line; converted with six plugin lists (footnotes first, last, in the middle; with and without speedup, url, task_lists, def_list, abbr); every clause of C14 checked on the HTML and on the token list; "
                     "non-trivial = has at least one definition and one reference; distinct by document text",
             "samples": [json.dumps(cases[0]["doc"]), json.dumps(cases[1]["hist"])]}
 
